@@ -840,10 +840,36 @@ def sib7b(ctx, pid):
                 return False
             if len(ys) == 1 and ys[0].value is not None and is_bit(ys[0].value) and not any(isinstance(n, ast.Yield) for n in ast.walk(f.node) if n is not ys[0]):
                 writer_ok = True
+    if not writer_ok and writer_wrong is None:
+        # third spelling: the bits as one generator expression - (bool(b & w) for b in value for w in EXP)
+        rets_ = [n for n in ast.walk(f.node) if isinstance(n, ast.Return) and n.value is not None]
+        if len(rets_) == 1 and isinstance(rets_[0].value, ast.GeneratorExp) and len(rets_[0].value.generators) == 2 and not any(isinstance(n, (ast.Yield, ast.YieldFrom)) for n in ast.walk(f.node)):
+            ge = rets_[0].value
+            g0, g1 = ge.generators
+            if isinstance(g0.iter, ast.Name) and g0.iter.id == f.params[0] and isinstance(g0.target, ast.Name) and not g0.ifs \
+                    and isinstance(g1.iter, ast.Name) and g1.iter.id == "EXP" and isinstance(g1.target, ast.Name) and not g1.ifs:
+                bv, wv = g0.target.id, g1.target.id
+                band = ("%s&%s" % (bv, wv), "%s&%s" % (wv, bv))
+                e_ = ge.elt
+                if isinstance(e_, ast.Call) and isinstance(e_.func, ast.Name) and e_.func.id == "bool" and len(e_.args) == 1 and ast.unparse(e_.args[0]).replace(" ", "") in band:
+                    writer_ok = True
+                elif isinstance(e_, ast.Compare) and len(e_.ops) == 1 and isinstance(e_.ops[0], (ast.NotEq, ast.Gt)) and isinstance(e_.comparators[0], ast.Constant) \
+                        and e_.comparators[0].value == 0 and ast.unparse(e_.left).replace(" ", "").strip("()") in band:
+                    writer_ok = True
     g = ctx.P.func(B + "decode_from_bin")
     gsrc = util.alpha_src(g)
     gsrc = __import__("re").sub(r"(\w+)\[::-1\]", r"reversed(\1)", gsrc)  # chunk[::-1] enumerates like reversed(chunk)
     reader_ok = "partition_all(8,%s)" % g.params[0] in gsrc and "sum((2**v1*v2for(v1,v2)inenumerate(reversed(v0))))" in gsrc.replace("forv1,v2in", "for(v1,v2)in")
+    if not reader_ok and "partition_all(8,%s)" % g.params[0] in gsrc:
+        # second spelling of the fold: sum(map(operator.mul, <weights 1, 2, .., 128>, reversed(chunk)))
+        import re as _re
+        m_ = _re.search(r"sum\(map\(operator\.mul,(\w+),reversed\(v0\)\)\)", gsrc) or _re.search(r"sum\(map\(mul,(\w+),reversed\(v0\)\)\)", gsrc)
+        if m_ is not None:
+            wts = ctx.P.const(g.module, m_.group(1))
+            if wts in ((1, 2, 4, 8, 16, 32, 64, 128), [1, 2, 4, 8, 16, 32, 64, 128]):
+                reader_ok = True
+        elif "sum(map(operator.mul,(1,2,4,8,16,32,64,128),reversed(v0)))" in gsrc or "sum(map(mul,(1,2,4,8,16,32,64,128),reversed(v0)))" in gsrc:
+            reader_ok = True  # (a named constant for the weights is folded into the literal on the analyser's copy)
     c = "bit-order:encode_to_bin/decode_from_bin"
     if msb_first and writer_ok and reader_ok:
         ctx.ok(c, f.loc(), "writer emits bits for weights 128..1 in that order; reader weights the reversed 8-chunk by 2**index: both MSB first")
